@@ -7,7 +7,7 @@ FORBIDDEN = re.compile(r'\b(Admitted|admit|Axiom|Axioms|Parameter|Parameters|Con
 
 def coq_sources():
     fs = []
-    for sub in ['Base', 'Model', 'Proofs', 'Props']:
+    for sub in ['Base', 'Model', 'Engine', 'Proofs', 'Props']:
         fs += sorted(glob.glob(os.path.join(COQ, 'theories', sub, '*.v')))
     fs += sorted(glob.glob(os.path.join(COQ, 'gen', '*.v')))
     return [os.path.relpath(f, COQ) for f in fs]
@@ -93,7 +93,7 @@ def build_driver():
     ex = os.path.join(BUILD, 'extracted')
     os.makedirs(ex, exist_ok=True)
     drv = os.path.join(ex, 'driver')
-    deps = glob.glob(os.path.join(COQ, 'theories', 'Model', '*.vo')) + glob.glob(os.path.join(COQ, 'theories', 'Base', '*.vo')) + \
+    deps = glob.glob(os.path.join(COQ, 'theories', 'Model', '*.vo')) + glob.glob(os.path.join(COQ, 'theories', 'Base', '*.vo')) + glob.glob(os.path.join(COQ, 'theories', 'Engine', '*.vo')) + \
            [os.path.join(COQ, 'theories', 'Extract.v'), os.path.join(VERIF, 'driver', 'driver.ml')]
     if os.path.exists(drv) and all(os.path.getmtime(d) <= os.path.getmtime(drv) for d in deps):
         return True, ''
@@ -140,7 +140,7 @@ def prepare(full=False):
     st['make_log'] = log
     st['t_coq'] = round(time.time() - t0, 1)
     st['audit'] = audit_sources()
-    model_ok = all(v for k, v in built.items() if k.startswith('theories/Model/') or k.startswith('theories/Base/') or k.startswith('gen/'))
+    model_ok = all(v for k, v in built.items() if k.startswith('theories/Model/') or k.startswith('theories/Base/') or k.startswith('theories/Engine/Syntax') or k.startswith('theories/Engine/Parse') or k.startswith('gen/'))
     if model_ok:
         ok, msg = build_driver()
         st['driver_ok'] = ok
